@@ -23,6 +23,22 @@ def Server_incomingConnection (ve : Vx.Env) (s : List Vx.Act) : List Vx.Act :=
       s
   s
 
+/-- `ServerPrivate::process` -/
+def ServerPrivate_process (ve : Vx.Env) (s : List Vx.Act) : List Vx.Act :=
+  let s := Vx.act s Vx.Act.newHttp
+  let s := Vx.act s Vx.Act.onDisconnectedDelete
+  let s := Vx.act s (Vx.Act.onHeadersParsed (
+    let s : List Vx.LAct := []
+    let s :=
+      if ve.hasHandler then
+        let s := Vx.lact s (Vx.LAct.route (1 : Int))
+        s
+      else
+        let s := Vx.lact s (Vx.LAct.err (500 : Int))
+        s
+    s))
+  s
+
 end QhttpGen.Srv
 
 macro "unfold_srv_helpers" : tactic => `(tactic| skip)
